@@ -80,7 +80,8 @@ Inductive item := IOk (e : entry) | IErr (e : werr).
 (* one directory being iterated *)
 Record frame := mkFrame { f_path : rpath; f_cached : bool; f_items : list entry }.
 
-Record wstate := mkWstate { s_started : bool; s_open : N; s_iters : list frame; s_deferred : list entry }.
+(* a deferred directory carries the iterator depth it was found at *)
+Record wstate := mkWstate { s_started : bool; s_open : N; s_iters : list frame; s_deferred : list (entry * nat) }.
 
 (* MemfsEntryIter::new + next: the children, in set order, stopping at the first missing one *)
 Fixpoint child_entries (sn : snap) (p : rpath) (follow : bool) (ns : list (list N)) : list entry :=
@@ -136,7 +137,7 @@ Definition process (sn : snap) (o : wopts) (pre : entry -> option errkind) (st :
       if depth <? o_min o then (st1, None, pres)
       else if negb (passes o e) then (st1, None, pres)
       else if e_dir e && o_contents_first o then
-        (mkWstate (s_started st1) (s_open st1) (s_iters st1) (e :: s_deferred st1), None, pres)
+        (mkWstate (s_started st1) (s_open st1) (s_iters st1) ((e, depth) :: s_deferred st1), None, pres)
       else (st1, Some (IOk e), pres)
   end.
 
@@ -147,9 +148,10 @@ Fixpoint next_loop (fuel : nat) (sn : snap) (o : wopts) (pre : entry -> option e
   match fuel with
   | O => OutOfFuel
   | S fuel' =>
-    if o_contents_first o && (length (s_iters st) <? length (s_deferred st)) then
+    (* a deferred directory is returned once the iterator stack is back at the depth it was found at *)
+    if o_contents_first o && (match s_deferred st with (_, dep) :: _ => length (s_iters st) <=? dep | [] => false end) then
       match s_deferred st with
-      | d :: ds => Done (mkWstate (s_started st) (s_open st) (s_iters st) ds, Some (IOk d), [])
+      | (d, _) :: ds => Done (mkWstate (s_started st) (s_open st) (s_iters st) ds, Some (IOk d), [])
       | [] => Done (st, None, [])
       end
     else
